@@ -114,10 +114,11 @@ func (s *subscriptionsState) DeletePeer(peer uint64) {
 	toDelete := s.filter(func(a api.Subscription) bool { return a.Peer == peer })
 	event := &api.StateBroadcastEvent{Subscriptions: []*api.Subscription{}}
 
-	for _, subscription := range toDelete {
+	for idx := range toDelete {
+		subscription := &toDelete[idx]
 		subscription.LastDeleted = now
-		s.set(subscription)
-		event.Subscriptions = append(event.Subscriptions, &subscription)
+		s.set(*subscription)
+		event.Subscriptions = append(event.Subscriptions, subscription)
 	}
 	buf, err := proto.Marshal(event)
 	if err != nil {
@@ -133,10 +134,11 @@ func (s *subscriptionsState) DeleteSession(id string) {
 	toDelete := s.filter(func(a api.Subscription) bool { return a.SessionID == id })
 	event := &api.StateBroadcastEvent{Subscriptions: []*api.Subscription{}}
 
-	for _, subscription := range toDelete {
+	for idx := range toDelete {
+		subscription := &toDelete[idx]
 		subscription.LastDeleted = now
-		s.set(subscription)
-		event.Subscriptions = append(event.Subscriptions, &subscription)
+		s.set(*subscription)
+		event.Subscriptions = append(event.Subscriptions, subscription)
 	}
 	buf, err := proto.Marshal(event)
 	if err != nil {
